@@ -6,7 +6,7 @@ package checks
 // store of the node over a harness database that outlives the store object.
 //
 // Part A: every sequence of <=4 (quick) / <=5 (thorough; plus length 6 over a
-// 4-batch sub-menu) batches of a 7-batch menu, committed at increasing heights,
+// 4-batch sub-menu) batches of a 6-batch menu, committed at increasing heights,
 // x address/key pools of 1, 2 and 300 distinct values x a store restart at
 // every subset of the batch boundaries (x which call comes first on the new
 // store object: LoadEvents, or - pool 2 in quick, every pool in thorough - the
@@ -16,8 +16,11 @@ package checks
 // lattice/events.RunA).
 //
 // Part B: 65 534 ... 65 540 distinct validator keys and 70 000 distinct
-// addresses over four heights, without restarts and with a restart after every
-// commit.
+// addresses (quick: 70 000 in the 65 534-key runs, about 39 000 in the others)
+// over four heights; restart policy "last" (no restart until all
+// four heights are committed and verified, then one restart and everything is
+// verified again), "every" (restart after every commit) and, thorough only,
+// "none".
 //
 // Readings taken where the property text leaves a choice (all in favour of the
 // code): an empty batch may load as an empty list or as nil; a height nothing
@@ -28,8 +31,11 @@ package checks
 import (
 	"encoding/json"
 	"fmt"
+	"os"
 	"runtime"
+	"runtime/debug"
 	"sort"
+	"strconv"
 	"strings"
 	"sync"
 	"sync/atomic"
@@ -188,16 +194,23 @@ func init() {
 }
 
 func runC24(c *Ctx) {
+	// the run allocates and drops gigabytes of decoder garbage; with the binary's GC percent of 800 every
+	// allocation lands on never-touched pages (page faults dominate), so collect at the usual pace here
+	gcp := 50
+	if v, err := strconv.Atoi(os.Getenv("VERIF_C24_GC")); err == nil {
+		gcp = v
+	}
+	defer debug.SetGCPercent(debug.SetGCPercent(gcp))
 	menu := len(lev.Menu)
 	maxLen := 4                    // full menu up to this length
 	var subMenu []int              // thorough: sequences of length maxLen+1 over this sub-menu
 	modeC := map[int]bool{2: true} // pools for which "CommitEvents first on the new store" is enumerated too
-	restartsB := []string{"none", "every"}
+	restartsB := []string{"every", "last"}
 	if !c.Quick() {
 		maxLen = 5
-		subMenu = []int{0, 2, 3, 6}
+		subMenu = []int{0, 2, 3, 5}
 		modeC = map[int]bool{1: true, 2: true, 300: true}
-		restartsB = []string{"none", "every", "last"}
+		restartsB = []string{"every", "last", "none"}
 	}
 	const addrsB = 70000
 
@@ -209,7 +222,18 @@ func runC24(c *Ctx) {
 	var units []unit
 	for _, rs := range restartsB {
 		for k := 65534; k <= 65540; k++ {
-			units = append(units, unit{b: &lev.ParamsB{NKeys: k, NAddrs: addrsB, Restarts: rs}})
+			// policy "last" contains the restart-free run (everything it verifies before its one restart);
+			// quick adds restarts after every commit for the last good and the second wrapped key count only
+			if c.Quick() && rs == "every" && k != 65534 && k != 65537 {
+				continue
+			}
+			// quick: the address table (32-bit ids, independent of the key count) is taken past 65 536 entries in
+			// one run per policy; the other runs use the addresses their key events need (about 39 000)
+			na := addrsB
+			if c.Quick() && k != 65534 {
+				na = 0
+			}
+			units = append(units, unit{b: &lev.ParamsB{NKeys: k, NAddrs: na, Restarts: rs}})
 		}
 	}
 	nB := len(units)
@@ -243,6 +267,8 @@ func runC24(c *Ctx) {
 	aggA := make([]*c24Agg, workers)
 	aggB := make([]*c24Agg, workers)
 	resB := make([]*lev.Result, nB)
+	wallB := make([]float64, nB)
+	var lastB int64 // unix nanos at which the last part-B run ended
 	var next int64
 	var skipped int64
 	var wg sync.WaitGroup
@@ -258,8 +284,11 @@ func runC24(c *Ctx) {
 				}
 				if i < nB {
 					u := units[i]
+					t0 := time.Now()
 					res := lev.RunB(*u.b)
 					resB[i] = res
+					wallB[i] = time.Since(t0).Seconds()
+					atomic.StoreInt64(&lastB, time.Now().UnixNano())
 					aggB[w].take([2]int{i, 0}, res, c24Replay{Part: "B", Params: u.b, Text: u.b.String()})
 					continue
 				}
@@ -319,13 +348,13 @@ func runC24(c *Ctx) {
 			sigs = []string{}
 		}
 		runsB = append(runsB, map[string]interface{}{"params": p, "distinct_pubkeys_measured": k, "distinct_addresses_measured": ad, "events": evn,
-			"heights_compared": resB[i].Heights, "events_compared": resB[i].Events, "restarts": resB[i].Restarts, "differences": sigs})
+			"wall_s": wallB[i], "heights_compared": resB[i].Heights, "events_compared": resB[i].Events, "restarts": resB[i].Restarts, "differences": sigs})
 	}
 	samples := []interface{}{
 		c24Render(lev.ScenarioA{Seq: []int{1, 3}, Pool: 2, Mask: 1, Mode: "L"}),
-		c24Render(lev.ScenarioA{Seq: []int{6, 4, 5}, Pool: 300, Mask: 5, Mode: "L"}),
+		c24Render(lev.ScenarioA{Seq: []int{5, 1, 4}, Pool: 300, Mask: 5, Mode: "L"}),
 		c24Render(lev.ScenarioA{Seq: []int{2, 0, 3, 5}, Pool: 2, Mask: 7, Mode: "C"}),
-		map[string]interface{}{"scenario": "part B " + units[nB-1].b.String(), "layout": "height 10: keys 1..30000, height 20: keys 30001..65530, height 30: keys 65531..N, height 40: old and new keys again; one event per key, type = (key number-1) mod 6 of reward/slash/jail/unbond/kick/move (+ a removeCandidate for every 11th key); every event with an address takes a fresh one, unlock/expired-order events fill up to the address count; key-less unbonds sprinkled in"},
+		map[string]interface{}{"scenario": "part B " + units[nB-1].b.String(), "layout": "height 10: keys 1..30000, height 20: keys 30001..65530 (two of three events are stake moves with two new keys, the third a reward/slash/jail/unbond/kick with one), height 30: keys 65531..N one event per key of type (key number-1) mod 6 of reward/slash/jail/unbond/kick/move, height 40: old and new keys again; removeCandidate events with known keys in between; every event with an address takes a fresh one, unlock/expired-order events fill up to the address count; key-less unbonds sprinkled in"},
 	}
 	cv := c.Ev.Coverage
 	cv["evaluations"] = A.scenarios + B.scenarios + A.heights + B.heights
@@ -346,6 +375,7 @@ func runC24(c *Ctx) {
 	cv["sub_menu_for_one_longer"] = subMenu
 	cv["part_b_runs"] = runsB
 	cv["sequences_skipped_by_deadline"] = skipped
+	cv["part_b_finished_after_s"] = time.Unix(0, lastB).Sub(c.Start).Seconds()
 	cv["exhaustive"] = skipped == 0
 	cv["samples"] = samples
 	modeCPools := "pool class 2"
@@ -356,7 +386,7 @@ func runC24(c *Ctx) {
 	if len(subMenu) > 0 {
 		extra = fmt.Sprintf(" plus every sequence of %d batches over the sub-menu %v,", maxLen+1, subMenu)
 	}
-	cv["rule"] = fmt.Sprintf("part A: every sequence of 1..%d batches out of a menu of %d batches (all 12 event types; empty batch; identical events; nil and set optional key; amounts 0, 1, 40 digits; coin ids 0, 1, 2^32-1),%s committed at heights 3, 255, 256, 65536, 16777216, 4294967295, x pool class (1, 2, 300 distinct addresses and keys; class 300 starts from a database primed with elements 0..297 - a 298-event height and an 8-event sentinel height on the ids around 255/256 - elements 298 and 299 are first seen inside the scenario) x every subset of the batch boundaries at which the store object is replaced by a new one over the same database x mode (L: LoadEvents is the first call on a new object; C, for %s: the CommitEvents of the next batch is). Right after a commit (and after the restart following it, mode L) the height just committed is loaded and compared with the specs added, field by field; after the last commit and again after the restart following it EVERY committed height is (class 300: including the sentinel height, and the 298-event height for sequences of length<=3), and a never-committed height must load nothing. The scenario set is prefix closed with identical call histories, so every commit point of every scenario has all its heights verified in the scenario ending there. part B: one run per (number of distinct keys 65534..65540, restart policy), all heights verified after every commit and every restart. A scenario is counted in distinct_nontrivial when at least one restart happened in it AND at least one non-empty batch committed inside the scenario was afterwards loaded by a later store object than the one that committed it (scenarios are distinct tuples by construction; priming batches do not count). evaluations = scenarios executed + (height, store) comparisons made.", maxLen, menu, extra, modeCPools)
+	cv["rule"] = fmt.Sprintf("part A: every sequence of 1..%d batches out of a menu of %d batches (all 12 event types; empty batch; identical events; nil and set optional key; amounts 0, 1, 40 digits; coin ids 0, 1, 2^32-1),%s committed at heights 3, 255, 256, 65536, 16777216, 4294967295, x pool class (1, 2, 300 distinct addresses and keys; class 300 starts from a database primed with elements 0..297 - a 298-event height and an 8-event sentinel height on the ids around 255/256 - elements 298 and 299 are first seen inside the scenario) x every subset of the batch boundaries at which the store object is replaced by a new one over the same database x mode (L: LoadEvents is the first call on a new object; C, for %s: the CommitEvents of the next batch is). Right after a commit (and after the restart following it, mode L) the height just committed is loaded and compared with the specs added, field by field; after the last commit and again after the restart following it EVERY committed height is (class 300: including the sentinel height, and the 298-event height for sequences of length<=3), and a never-committed height must load nothing. The scenario set is prefix closed with identical call histories, so every commit point of every scenario has all its heights verified in the scenario ending there. part B: one run per (number of distinct keys 65534..65540, restart policy); the height just committed is verified after each of the first three commits (and after the restart following it), all four heights after the last commit (and after the restart following it). A scenario is counted in distinct_nontrivial when at least one restart happened in it AND at least one non-empty batch committed inside the scenario was afterwards loaded by a later store object than the one that committed it (scenarios are distinct tuples by construction; priming batches do not count). evaluations = scenarios executed + (height, store) comparisons made.", maxLen, menu, extra, modeCPools)
 	c.Ev.Assumptions = append(c.Ev.Assumptions,
 		"tm-db MemDB (wrapped by verif/vdb) stands for the LevelDB the node uses for events; only Get/Set are used by the store",
 		"a restart is modelled as a new NewEventsStore object over the same database (all writes of the store are synchronous Set calls, none is buffered in the object)",
